@@ -723,6 +723,26 @@ def _check_measure(world, pre, post, r, res, S, cell, out, tol):
         return
     # Born rule at the sampler seam
     born_ok = _born_match(world, pre, T, res.draws, outcomes, cell, out, ["C04"])
+    # Mach-Zehnder scenario (C11): the detection probability at output 1 is sin^2(phi/2)
+    mz = r.get("mz")
+    if mz and mz.get("port") == 1 and r.get("on"):
+        n = r["on"][0]
+        want = float(np.sin(mz["phi"] / 2) ** 2)
+        got = None
+        if n in T.pre_members:
+            got = float(R.marginal_diag(T.rho_pre, T.dims_pre, T.pre_members.index(n))[1:2].sum())
+        seam = None
+        for d in res.draws:
+            if d["p"] is not None and len(d["p"]) >= 2:
+                pp = np.real(np.asarray(d["p"], dtype=np.complex128))
+                if np.all(np.isfinite(pp)) and pp.sum() > 0:
+                    seam = float(pp[1] / pp.sum())
+                    break
+        for label, val in (("state", got), ("sampler", seam)):
+            if val is not None and abs(val - want) > 1e-6:
+                out.append(
+                    Violation(["C11"], "mach-zehnder", "detection-probability", cell, f"P(1 photon at output 1) from the {label} = {val:.8f}, sin^2(phi/2) = {want:.8f} (phi={mz['phi']})")
+                )
     # collapse
     proj = {T.pre_members.index(n): o for n, o in outcomes.items() if n in T.pre_members}
     bad = [n for n, o in outcomes.items() if n in T.pre_members and not (0 <= o < T.dims_pre[T.pre_members.index(n)])]
